@@ -125,4 +125,9 @@ theorem C06_round (cfg : Config) (d : Dec) (n : Int) : d.round cfg n = d.withSca
 theorem C06_roundPair_table (m : Mode) (neg : Bool) (l r : Fin 10) (tz : Bool) :
     roundPair m neg l r tz = l + (if pairUp m neg l r tz then 1 else 0) := roundPair_table m neg l r tz
 
+
+/-- non-vacuity: 2.675 cut to two decimals - digits are dropped (`2 < 3`), so the seven readings apply -/
+example : ((Dec.mk 2675 3).withScaleRound 2 .Floor).int = ⌊(Dec.mk 2675 3).value * (10 : ℚ) ^ (2 : Int)⌋ :=
+  (C06_mode_meaning ⟨2675, 3⟩ 2 (by decide)).1
+
 end BigDec
